@@ -56,7 +56,8 @@ SeqToSet(q) == { q[i] : i \in DOMAIN q }
 JudgeSolve(e, again) ==
     LET s == e.x
         pred == series'[s]
-    IN IF pred.ok /\ pred.full /\ pred.keys = SeriesKeys(block'[s])
+        hyp == AsFound_VarListCached \/ AsFound_TraceBreaksFunctions \/ Hyp_SharedFunctions \/ Hyp_RhsCachedByName
+    IN IF pred.ok /\ pred.full /\ pred.keys = SeriesKeys(block'[s]) /\ pred.body = pred.own /\ pred.eqs = block'[s]
        THEN IF ~e.same_keys /\ parses'[s] > 1 THEN Prop("C17_ReparseClean")
             ELSE IF ~e.ok THEN Prop("C17_HistoryIndependent")
             ELSE IF ~e.full /\ parses'[s] > 1 THEN Prop("C17_ReparseClean")
@@ -65,7 +66,12 @@ JudgeSolve(e, again) ==
             ELSE IF SeqToSet(e.varlist) # varList'[s] THEN Drift("variable_list")
             ELSE IF e.nk # nK'[s] THEN Drift("exogenous_k_entries")
             ELSE JudgeProcess(e)
-       ELSE \* only with an AsFound_ constant TRUE: the spec itself predicts the failure
+       ELSE IF ~hyp
+       THEN \* the block calls a function this solver was never given: alone it raises NameError, so it must here
+            IF e.ok THEN Prop("C17_HistoryIndependent")
+            ELSE IF ~e.same_keys \/ ~e.same_vals THEN Drift("failed_solve_state")
+            ELSE JudgeProcess(e)
+       ELSE \* only with an AsFound_ / Hyp_ constant TRUE: the spec itself predicts the failure
             IF e.ok # pred.ok \/ e.same_keys # (pred.keys = SeriesKeys(block'[s])) THEN Drift("asfound_prediction")
             ELSE Ok
 
@@ -81,7 +87,9 @@ Reset ==
     /\ varList' = [s \in Solvers |-> {}]
     /\ series' = [s \in Solvers |-> NoSeries]
     /\ solved' = [s \in Solvers |-> FALSE]
-    /\ hasFunc' = [s \in Solvers |-> FALSE]
+    /\ func' = [s \in Solvers |-> NoFunc]
+    /\ reg' = [s \in Solvers |-> NoFunc]
+    /\ rhsFrom' = [s \in Solvers |-> NoBlock]
     /\ nK' = [s \in Solvers |-> 0]
     /\ parses' = [s \in Solvers |-> 0]
     /\ traceStep' = [x \in Holders |-> 0]
@@ -117,6 +125,9 @@ TraceNext ==
        \/ /\ e.ev = "Reparse"
           /\ Reparse(e.x, e.b)
           /\ verdict' = Worse(verdict, JudgeStep(e))
+       \/ /\ e.ev = "AddFunction"
+          /\ AddFunction(e.x, e.b)
+          /\ verdict' = Worse(verdict, JudgeAux(e))
        \/ /\ e.ev = "Solve"
           /\ Solve(e.x)
           /\ verdict' = Worse(verdict, JudgeSolve(e, FALSE))
